@@ -197,8 +197,13 @@ class Gen:
             changed = self.r.choice(allf)
             funcs[changed]['2'] = self.body(changed, changed in self.ffuncs)
         history = []
-        if self.inputs:
-            history.append(["mutate", [["write", p, self.r.choice(CONTENTS)] for p in self.inputs]])
+        first = [["write", p, self.r.choice(CONTENTS)] for p in self.inputs]
+        if len(self.cache) > 1 and self.r.random() < 0.8:
+            # make the directory of the cache file a foreign directory (otherwise it is a
+            # "cache-only" directory, which queries may or may not see: latitude of C04)
+            first.append(["mkdir", self.cache[:-1]])
+        if first:
+            history.append(["mutate", first])
         n = nsteps or self.r.choice([2, 3, 3, 4, 5])
         vers = {}
         for i in range(n):
@@ -224,7 +229,7 @@ class Gen:
     def mutation(self):
         ops = []
         for _ in range(self.r.choice([1, 1, 2])):
-            k = self.r.choice(["write", "write", "touch", "rewrite", "rm", "mkdir", "rmtree", "plant", "swap_dir", "swap_file", "corrupt"])
+            k = self.r.choice(["write", "write", "touch"] + (["rewrite"] if self.p.get("rewrite") else []) + ["rm", "mkdir", "rmtree", "plant", "swap_dir", "swap_file", "corrupt"])
             pool = self.inputs + self.outputs
             p = list(self.r.choice(pool)) if pool and self.r.random() < 0.85 else self.path()
             if p == self.cache and k != "corrupt":
@@ -274,3 +279,25 @@ def size_of(case):
         if st[0] == "build":
             walk(st[2])
     return n
+
+
+def cache_only_dirs(case):
+    """True when the directories holding the cache file may be created by the build
+    itself (the latitude of C04: such directories are not observed consistently)."""
+    if len(case["cache"]) <= 1:
+        return False
+    parent = case["cache"][:-1]
+    made = False
+    for st in case["history"]:
+        if st[0] == "mutate":
+            for op in st[1]:
+                if op[0] == "mkdir" and op[1][:len(parent)] == parent:
+                    made = True
+                if op[0] == "write" and op[1][:len(parent)] == parent and len(op[1]) > len(parent):
+                    made = True
+                if op[0] == "rmtree" and parent[:len(op[1])] == op[1]:
+                    return True          # removed again later: may be re-created by a build
+        elif st[0] == "build":
+            if not made:
+                return True
+    return False
